@@ -654,6 +654,21 @@ def py_template_probe(task):
         for k in bi:
             specs.append((k, {"syms": syms, "nodes": base + [[k, 0, 1], ["multiply", 3, 2], ["add", 4, 0]], "root": 5}))
             specs.append((k, {"syms": syms, "nodes": base + [["multiply", 0, 1], ["add", 3, 2], [k, 4, 1], ["multiply", 5, 2], ["add", 6, 0]], "root": 7}))
+        if target == "numpy":
+            # operands of different widths, both orders (the result takes the wider type whichever operand is selected)
+            for T2 in ("float16", "float32", "float64"):
+                if T2 == T:
+                    continue
+                msyms = [["x", T], ["y", T2], ["z", T]]
+                for k in bi:
+                    # the node itself as result (its dtype shows), and under a consumer whose rounding depends on the
+                    # dtype it receives (a product with a wider value would convert exactly and hide a missing cast)
+                    for a, b in ((0, 1), (1, 0)):
+                        specs.append((k, {"syms": msyms, "nodes": base + [[k, a, b]], "root": 3}))
+                        specs.append((k, {"syms": msyms, "nodes": base + [[k, a, b], ["absolute", 3], ["sqrt", 4], ["add", 5, 2]], "root": 6}))
+                        specs.append((k, {"syms": msyms, "nodes": base + [[k, a, b], ["const", ["int", 3], 3], ["divide", 3, 4], ["add", 5, 2]], "root": 6}))
+                specs.append(("select", {"syms": msyms, "nodes": base + [["lt", 0, 2], ["select", 3, 0, 1], ["multiply", 4, 4]], "root": 5}))
+                specs.append(("select", {"syms": msyms, "nodes": base + [["lt", 0, 2], ["select", 3, 1, 0], ["multiply", 4, 4]], "root": 5}))
         for k, spec in specs:
             for debug in ((0, 1) if target == "numpy" else (0,)):
                 case = {"target": target, "spec": spec, "vseed": seed, "refs": {}, "rewrite": False, "debug": debug, "call_from": None}
